@@ -75,6 +75,11 @@ pub fn check(tree: &T) -> (Contract, Facts) {
         }
     }
     let res = if !ctx.rules.is_empty() {
+        if ctx.dont_care.is_some() {
+            // the open zones all concern the comparison of chance probabilities: an
+            // implementation may legitimately report that comparison first
+            ctx.rules.insert(Rule::ProbabilitiesNotEqual);
+        }
         Contract::MustReject(ctx.rules)
     } else if let Some(why) = ctx.dont_care {
         Contract::DontCare(why)
